@@ -134,7 +134,15 @@ def main():
     backends = {}
     trusted = set(plan.trusted_base)
     samples = []
+    from pyvc.contracts import _prop_of
     for rep in proof_reports:
+        # obligations labelled with another property's id are that property's business
+        bp = rep.get("by_property") or {"*": [rep["obligations"], rep["discharged"]]}
+        mine = [v for k, v in bp.items() if k in ("*", pid)]
+        rep["obligations"] = sum(v[0] for v in mine)
+        rep["discharged"] = sum(v[1] for v in mine)
+        rep["failed"] = [f for f in rep["failed"] if _prop_of(f["label"]) in (None, pid)]
+        rep["unknown"] = [u for u in rep["unknown"] if _prop_of(u) in (None, pid)]
         n_obl += rep["obligations"]
         n_dis += rep["discharged"]
         solver_time += rep.get("solver", {}).get("z3_time", 0) + rep.get(
